@@ -1,11 +1,11 @@
 SPECIFICATION Spec
 CONSTANTS
   Procs = {1,2}
-  NIds = 3
-  Cost <- Cost112
-  Size = 2
-  MaxCalls = 4
-  MaxPerProc = 2
+  NIds = 1
+  Cost <- Cost1
+  Size = 1
+  MaxCalls = 2
+  MaxPerProc = 1
   Twin = "waiter_no_recheck"
   Record = FALSE
 INVARIANTS
